@@ -97,7 +97,7 @@ def parse_output(out):
         full = name_line.strip().rstrip(".")
         name = full.split("::")[-1]
         h = {"name": name, "full": full, "failed_checks": [], "undetermined": [], "checks": 0, "covers": None, "status": "unknown"}
-        for m in re.finditer(r"Check \d+: (\S+)\n\s*- Status: (\w+)\n\s*- Description: \"(.*)\"\n(?:\s*- Location: (.*)\n)?", rest):
+        for m in re.finditer(r"Check \d+: ([^\n]+)\n\s*- Status: (\w+)\n\s*- Description: \"(.*)\"\n(?:\s*- Location: (.*)\n)?", rest):
             cid, st, desc, locn = m.group(1), m.group(2), m.group(3), m.group(4)
             if ".cover." in cid:
                 continue
@@ -170,6 +170,22 @@ def run_kani(src, harnesses, extra_args=None, timeout=3600, jobs=None, group=Non
     return {"rc": rc, "out": out, "wall_s": time.time() - t0, "cmd": "CARGO_NET_OFFLINE=true " + " ".join(cmd)}
 
 
+def expected_refusal(h, info):
+    """a harness listed under `expect_fail_only` passes iff it fails and every failed check is the expected panic of the
+    real code; if it verifies (the refusal is gone) or fails differently, that is reported as a failure of the harness"""
+    pat = (info.get("expect_fail_only") or {}).get(h["name"])
+    if not pat:
+        return h
+    if h["status"] == "failed":
+        other = [c for c in h["failed_checks"] if not re.search(pat, c.get("id", "") + " " + c["description"])]
+        if not other:
+            return dict(h, status="ok", failed_checks=[], expected_refusal=[c.get("id", "") + ": " + c["description"] for c in h["failed_checks"]])
+        return dict(h, failed_checks=other)
+    if h["status"] == "ok":
+        return dict(h, status="failed", failed_checks=[{"id": "expected-refusal", "description": "the call returned: the expected refusal (" + pat + ") did not happen", "location": ""}])
+    return h
+
+
 def run_groups(prop, cfg, tier):
     groups = [g for g, _ in cfg["kani"]]
     bounded = list(cfg.get("bounded_quick", []))
@@ -222,7 +238,7 @@ def run_groups(prop, cfg, tier):
         parsed = parse_output(r["out"])
         for n in sel:
             if n in parsed:
-                gres["harnesses"].append(parsed[n])
+                gres["harnesses"].append(expected_refusal(parsed[n], info))
             else:
                 errs = [l for l in r["out"].splitlines() if l.startswith("error")]
                 tail = (" | ".join(errs[:3]) or r["out"].strip()[-200:])[:300]
